@@ -213,6 +213,52 @@ def check_tables(ctx, db):
     ctx.require('R-FIELD pairs', n, 25)
 
 
+def check_strans_writer(ctx, db):
+    """Reflection is STRANS bit 0x8000, set exactly under x_reflection (either `|= 0x8000` under the test or a
+    conditional initialiser), and the guard of the whole transform block holds whenever the element is reflected,
+    rotated or magnified (evaluated over the 8 valuations of the three attribute tests)."""
+    for qn in ('gdstk::Reference::to_gds', 'gdstk::Label::to_gds'):
+        g = db.fn(qn)
+        ctx.touch(g)
+        st = [x for x in g.walk() if x.k == 'CompoundAssignOperator' and x.op == '|=' and 'buffer_flags' in x.child('lhs').text() and x.child('rhs').cv == 0x8000]
+        form_a = len(st) == 1 and any(a_.k == 'IfStmt' and norm(a_.child('cond').text()) == 'this->x_reflection' for a_ in st[0].ancestors())
+        init = next((v for v in g.walk() if v.k == 'VarDecl' and v.n == 'buffer_flags' and v.child('init') is not None), None)
+        form_b = False
+        if init is not None and not st:
+            for c in init.child('init').walk():
+                if c.k == 'ConditionalOperator' and norm(c.child('cond').text()) == 'this->x_reflection' and _strip_casts(c.child('then')).cv == 0x8000 and _strip_casts(c.child('else')).cv == 0:
+                    form_b = True
+        ctx.check(form_a or form_b, 'R-TABLE', '%s/STRANS-bit' % qn.replace('gdstk::', ''), g.loc(), 'reflection is STRANS bit 0x8000, set exactly under x_reflection')
+        tv = next((v for v in g.walk() if v.k == 'VarDecl' and v.n == 'transform_' and v.child('init') is not None), None)
+        if tv is None:
+            raise AnalysisBroken('%s: transform_ guard not found' % qn)
+        atoms = {'(this->rotation != 0)': 'rot', '(this->magnification != 1)': 'mag', 'this->x_reflection': 'refl'}
+
+        def ev(e, val):
+            e = _strip_casts(e)
+            if e.k == 'ParenExpr':
+                return ev(e.c[0], val)
+            if e.k == 'BinaryOperator' and e.op in ('||', '&&'):
+                a_, b_ = ev(e.child('lhs'), val), ev(e.child('rhs'), val)
+                return (a_ or b_) if e.op == '||' else (a_ and b_)
+            if e.k == 'UnaryOperator' and e.op == '!':
+                return not ev(e.child('sub'), val)
+            t = norm(e.text())
+            if t in atoms:
+                return val[atoms[t]]
+            raise AnalysisBroken('%s: transform_ guard mentions `%s`' % (qn, t[:60]))
+        bad = []
+        for bits in range(8):
+            val = {'rot': bool(bits & 1), 'mag': bool(bits & 2), 'refl': bool(bits & 4)}
+            if ev(tv.child('init'), val) != (val['rot'] or val['mag'] or val['refl']):
+                bad.append(val)
+        ctx.explored['valuations'] += 8
+        ctx.check(not bad, 'R-TABLE', '%s/transform-guard' % qn.replace('gdstk::', ''), tv.loc(), 'STRANS (and MAG/ANGLE) are written exactly when the element is rotated, magnified or reflected',
+                  'for %s the transform block is %s: the attribute never reaches the file' % (bad[0] if bad else '', 'skipped' if bad and any(bad[0].values()) else 'written'))
+        uses = [i for i in g.walk() if i.k == 'IfStmt' and norm(i.child('cond').text()) == 'transform_']
+        ctx.check(len(uses) >= 2, 'R-TABLE', '%s/transform-guard-used' % qn.replace('gdstk::', ''), tv.loc(), 'both the preparation and the emission of STRANS/MAG/ANGLE are under that guard')
+
+
 def check_enum_tables(ctx, db):
     vals = {c['v']: c['n'] for c in db.enum('gdstk::EndType')['consts']}
 
@@ -242,12 +288,8 @@ def check_enum_tables(ctx, db):
     want = {'Flush': 'Flush', 'Round': 'Round', 'HalfWidth': 'HalfWidth', 'Extended': 'Extended', 'Smooth': 'Round'}
     ok = a == b and all(full.get(k) == v for k, v in want.items()) and a.get('HalfWidth') == 2 and a.get('Extended') == 4 and a.get('Round') == 1 and a.get('default') == 0
     ctx.check(ok, 'R-TABLE', 'EndType<->PATHTYPE', inner.loc(), 'PATHTYPE codes 0/1/2/4 round-trip Flush/Round/HalfWidth/Extended; Smooth degrades to Round', 'writer %s / %s, reader %s, composed %s' % (a, b, rt, full))
-    # STRANS bit
-    for qn in ('gdstk::Reference::to_gds', 'gdstk::Label::to_gds'):
-        g = db.fn(qn)
-        st = [x for x in g.walk() if x.k == 'CompoundAssignOperator' and x.op == '|=' and 'buffer_flags' in x.child('lhs').text()]
-        ok = len(st) == 1 and st[0].child('rhs').cv == 0x8000 and any(a_.k == 'IfStmt' and norm(a_.child('cond').text()) == 'this->x_reflection' for a_ in st[0].ancestors())
-        ctx.check(ok, 'R-TABLE', '%s/STRANS-bit' % qn.replace('gdstk::', ''), g.loc(), 'reflection is STRANS bit 0x8000, set exactly under x_reflection')
+    # STRANS bit and the guard that decides whether STRANS/MAG/ANGLE are written at all
+    check_strans_writer(ctx, db)
     arm = next((stmts for labels, stmts, top in tables.switch_arms(sw) if any(names.get(l) == 'STRANS' for l in labels)), None)
     t = fulltext(arm)
     ctx.check(t.count('(data16[0] & 32768) != 0') == 2 and 'reference->x_reflection' in t and 'label->x_reflection' in t, 'R-TABLE', 'read_gds/STRANS-bit', arm[0].loc(), 'the reader tests the same bit 0x8000 for references and labels')
@@ -398,6 +440,7 @@ def run(ctx):
     check_aref(ctx, db)
     C03.check_xy_continuation(ctx, db)   # a boundary split over several XY records re-loads completely
     C03.check_element_buffers(ctx, db)   # one PATH record per element, from a scratch array emptied per element
+    C03.check_reader_state(ctx, db)      # element-scoped reader state (WIDTH, ...) does not leak into the next element
 
 
 MANIFEST = dict(
